@@ -28,7 +28,7 @@ def same(a, b, tol=1e-9):
 
 
 def near_boundary(ang, off, case, bwv):
-    near_tol = np.min(np.abs(ang - case['tolerance'] / 2)) < 1e-7
+    near_tol = np.nanmin(np.abs(ang - case['tolerance'] / 2)) < 1e-7
     near_bw = case['directional_model'] == 'triangle' and np.min(np.abs(off - bwv / 2)) < 1e-9 * max(1.0, bwv)
     return bool(near_tol or near_bw)
 
@@ -64,8 +64,22 @@ def check_case(ctx, case):
     reg('isotropic')
     oi = obs(c12.build(iso_case))
     if not same(oi, obs(iso)):
+        # defect model D24: co-located pairs have no direction (NaN angle) and are left out of every directional
+        # variogram, so tolerance 180 reproduces the isotropic variogram *of the non-degenerate pairs*
+        sig = dict(kind='isotropic', colocated_pairs_excluded=False)
+        with quiet():
+            dd = np.asarray(iso.distance, float)
+        if np.any(dd == 0):
+            from skgstat import binning
+            fn = binning.even_width_lags if case['bin_func'] == 'even' else binning.uniform_count_lags
+            pe, _ = fn(dd[dd > 0], case['n_lags'], None)
+            pe = np.asarray(pe, float)
+            lo = np.concatenate(([0.0], pe[:-1]))
+            pc = [int(np.sum((dd[dd > 0] >= a) & (dd[dd > 0] < b))) for a, b in zip(lo, pe)]
+            sig['colocated_pairs_excluded'] = bool(len(pe) == len(oi[0]) and np.allclose(pe, oi[0], rtol=1e-12, atol=0)
+                                                    and pc == oi[1].tolist())
         ctx.violation('isotropic', 'tolerance=180 (compass): edges %r counts %r, isotropic edges %r counts %r' % (
-            oi[0].tolist(), oi[1].tolist(), obs(iso)[0].tolist(), obs(iso)[1].tolist()), iso_case)
+            oi[0].tolist(), oi[1].tolist(), obs(iso)[0].tolist(), obs(iso)[1].tolist()), iso_case, signature=sig)
     # opposite azimuth
     az2 = az - 180 if az > 0 else az + 180
     reg('opposite')
@@ -81,7 +95,7 @@ def check_case(ctx, case):
         az3 -= 360
     while az3 < -180:
         az3 += 360
-    near_tol = np.min(np.abs(ang - case['tolerance'] / 2)) < 1e-7
+    near_tol = np.nanmin(np.abs(ang - case['tolerance'] / 2)) < 1e-7
     bwv = float(base.bandwidth)
     near_bw = case['directional_model'] == 'triangle' and np.min(np.abs(off - bwv / 2)) < 1e-9 * max(1.0, bwv)
     edges_near = len(o0[0]) and np.min(np.abs(d0[mask0][:, None] - o0[0][None, :])) < 1e-9 * max(1.0, d0.max()) \
@@ -109,9 +123,10 @@ def check_case(ctx, case):
         if azk > 180:
             azk -= 360
         angk, _ = c12.geometry(coords, azk, 0.0)
-        if np.min(np.abs(angk - width / 2)) < 1e-7:
+        if np.nanmin(np.abs(angk - width / 2)) < 1e-7:
             boundary = True
         onb |= np.abs(angk - width / 2) < 1e-7
+        onb |= ~np.isfinite(angk)          # co-located points: no direction, outside "every non-degenerate pair"
         with quiet():
             Vk = c12.build(case, azimuth=azk, tolerance=width, directional_model='compass')
             total += np.asarray(Vk._direction_mask(), int)
@@ -119,9 +134,9 @@ def check_case(ctx, case):
     if np.any((total == 0) & ~onb):
         ctx.violation('tiling', '%d sectors of %g deg from %r: %d pairs are selected by no sector' % (
             m, width, a0, int(np.sum(total == 0))), dict(case, sectors=m, a0=a0))
-    elif not boundary and int(total.sum()) != len(d0):
-        ctx.violation('tiling', '%d sectors of %g deg: sector counts add up to %d, isotropic pair count %d' % (
-            m, width, int(total.sum()), len(d0)), dict(case, sectors=m, a0=a0))
+    elif not boundary and int(total.sum()) != int(np.sum(np.isfinite(angk))):
+        ctx.violation('tiling', '%d sectors of %g deg: sector counts add up to %d, number of non-degenerate pairs %d' % (
+            m, width, int(total.sum()), int(np.sum(np.isfinite(angk)))), dict(case, sectors=m, a0=a0))
 
 
 def run(ctx):
